@@ -226,7 +226,7 @@ namespace {
         // Quiescence: faults stop, fair schedule. Top up permits only when the model says none is
         // available and every unfinished party is blocked in acquire(); with a permit available a
         // blocked acquirer has to proceed on its own.
-        sim_quiesce(4000000);
+        sim_quiesce(2000000);
         int64_t topups = 0;
         while (!P.all_finished())
         {
@@ -297,7 +297,7 @@ namespace {
                     ev(EV_REL_RET, 1, (int64_t) rel_ret_ns);
                 }
             });
-        sim_quiesce(4000000);
+        sim_quiesce(2000000);
         while (!P.all_finished()) main_pause();
         P.join_os();
         bool before = deadline_ns != 0 && rel_ret_ns < deadline_ns;
@@ -398,7 +398,7 @@ namespace {
                 }
             }
         });
-        sim_quiesce(4000000);
+        sim_quiesce(2000000);
         while (!P.all_finished())
         {
             // every unfinished party blocked: those within distance of the returned lower limit
